@@ -24,6 +24,15 @@ Open Scope bool_scope.
 (* Part A: job loop                                                                            *)
 (* ------------------------------------------------------------------------------------------ *)
 
+(* Builder.running_tasks holds step tasks (TJob, started by start_task: the only place a step
+   command is launched from) and hash tasks (THash, started by start_hash_task); both kinds share
+   the njob slots. A running step task whose command called amend() on inputs that still need
+   hashing is parked in Builder.run_promoted_hash_jobs (`amending`, one entry per call in progress);
+   its command is blocked in the RPC but it has not ended: it still executes, and it still counts
+   as a command task. What the code counts against njob is NOT fixed here: the two tests of
+   Builder.job_loop are translated from the source into gen.GenLimits.hash_slot_free /
+   job_slot_free (functions of len(running_tasks), the number of calls parked in
+   run_promoted_hash_jobs, and njob). *)
 Inductive task := TJob (j : nat) | THash (h : nat).
 
 Definition task_eqb (a b : task) : bool :=
@@ -38,6 +47,7 @@ Definition is_job (t : task) : bool := match t with TJob _ => true | THash _ => 
 Record loop := mkLoop {
   njob : nat;              (* Builder.njob *)
   running : list task;     (* Builder.running_tasks *)
+  amending : list nat;     (* job ids with a run_promoted_hash_jobs call in progress (amend() waits) *)
   popping : bool;          (* job_loop is suspended in `await scheduler.pop_next_job()` *)
   promoted : nat;          (* hash jobs run by run_promoted_hash_jobs, outside the budget *)
   draining : bool }.
@@ -47,6 +57,8 @@ Inductive lev :=
 | LPopBegin                  (* slot test passed, pop_next_job awaited *)
 | LPopEnd (j : option nat)   (* pop_next_job returned; Some j -> start_task *)
 | LTaskDone (t : task)       (* done callback: running_tasks.pop(task) *)
+| LAmendBegin (j : nat)      (* amend_step of running job j enters run_promoted_hash_jobs *)
+| LAmendEnd (j : nat)        (* ... its hash jobs are resolved, the RPC returns *)
 | LPromotedStart | LPromotedDone
 | LDrain | LWake.
 
@@ -56,32 +68,123 @@ Fixpoint remove_first (t : task) (l : list task) : list task :=
   | x :: r => if task_eqb t x then r else x :: remove_first t r
   end.
 
-Definition lstep (l : loop) (e : lev) : loop :=
+Fixpoint remove_first_nat (j : nat) (l : list nat) : list nat :=
+  match l with
+  | [] => []
+  | x :: r => if Nat.eqb j x then r else x :: remove_first_nat j r
+  end.
+
+Definition zlen {A} (l : list A) : Z := Z.of_nat (length l).
+
+(* a slot test: len(running_tasks) -> calls parked in run_promoted_hash_jobs -> njob -> bool *)
+Definition slot_test := Z -> Z -> Z -> bool.
+
+Definition guard_of (g : slot_test) (l : loop) : bool :=
+  g (zlen (running l)) (zlen (amending l)) (Z.of_nat (njob l)).
+
+Definition set_loop (l : loop) (r : list task) (a : list nat) (p : bool) : loop :=
+  mkLoop (njob l) r a p (promoted l) (draining l).
+
+(* the loop for an arbitrary pair of tests (hg in front of start_hash_task, jg in front of
+   pop_next_job/start_task) *)
+Definition lstep_gen (hg jg : slot_test) (l : loop) (e : lev) : loop :=
   match e with
   | LHashStart h =>
-      if negb (popping l) && slot_guard (length (running l)) (njob l)
-      then mkLoop (njob l) (THash h :: running l) false (promoted l) (draining l) else l
+      if negb (popping l) && guard_of hg l
+      then set_loop l (THash h :: running l) (amending l) false else l
   | LPopBegin =>
-      if negb (popping l) && slot_guard (length (running l)) (njob l)
-      then mkLoop (njob l) (running l) true (promoted l) (draining l) else l
-  | LPopEnd None => mkLoop (njob l) (running l) false (promoted l) (draining l)
+      if negb (popping l) && guard_of jg l
+      then set_loop l (running l) (amending l) true else l
+  | LPopEnd None => set_loop l (running l) (amending l) false
   | LPopEnd (Some j) =>
       if popping l && negb (draining l)
-      then mkLoop (njob l) (TJob j :: running l) false (promoted l) (draining l)
-      else mkLoop (njob l) (running l) false (promoted l) (draining l)
-  | LTaskDone t => mkLoop (njob l) (remove_first t (running l)) (popping l) (promoted l) (draining l)
-  | LPromotedStart => mkLoop (njob l) (running l) (popping l) (S (promoted l)) (draining l)
-  | LPromotedDone => mkLoop (njob l) (running l) (popping l) (pred (promoted l)) (draining l)
-  | LDrain => mkLoop (njob l) (running l) (popping l) (promoted l) true
+      then set_loop l (TJob j :: running l) (amending l) false
+      else set_loop l (running l) (amending l) false
+  | LTaskDone t => set_loop l (remove_first t (running l)) (amending l) (popping l)
+  | LAmendBegin j =>
+      if existsb (task_eqb (TJob j)) (running l)
+      then set_loop l (running l) (j :: amending l) (popping l) else l
+  | LAmendEnd j => set_loop l (running l) (remove_first_nat j (amending l)) (popping l)
+  | LPromotedStart => mkLoop (njob l) (running l) (amending l) (popping l) (S (promoted l)) (draining l)
+  | LPromotedDone => mkLoop (njob l) (running l) (amending l) (popping l) (pred (promoted l)) (draining l)
+  | LDrain => mkLoop (njob l) (running l) (amending l) (popping l) (promoted l) true
   | LWake => l
   end.
 
-Definition lrun (l : loop) (evs : list lev) : loop := fold_left lstep evs l.
+Definition lrun_gen (hg jg : slot_test) (l : loop) (evs : list lev) : loop := fold_left (lstep_gen hg jg) evs l.
 
-(* Step commands are only launched inside TJob tasks (structure facts of GenLimits.v). *)
+(* the code as it is: the two tests are generated from Builder.job_loop *)
+Definition lstep := lstep_gen hash_slot_free job_slot_free.
+Definition lrun := lrun_gen hash_slot_free job_slot_free.
+Definition hash_guard := guard_of hash_slot_free.
+Definition job_guard := guard_of job_slot_free.
+
+(* Step commands are only launched inside TJob tasks (structure facts of GenLimits.v); a command
+   whose step waits in amend() is still executing. *)
 Definition command_tasks (l : loop) : nat := length (filter is_job (running l)).
 
-Definition loop_init (n : nat) : loop := mkLoop n [] false 0 false.
+Definition loop_init (n : nat) : loop := mkLoop n [] [] false 0 false.
+
+Definition overrun (l : loop) : bool := negb (Nat.leb (command_tasks l) (njob l)).
+
+(* Counterexample search (a standing case of the check, and the source of the model-level witness
+   when the proof about the slot tests breaks): depth-first over the events that can change the
+   bookkeeping, fresh ids = k. *)
+Definition jobs_of (r : list task) : list nat :=
+  flat_map (fun t => match t with TJob j => [j] | THash _ => [] end) r.
+
+Definition next_events (l : loop) (k : nat) : list lev :=
+  [LPopBegin; LPopEnd (Some k); LHashStart k]
+  ++ map LAmendBegin (jobs_of (running l))
+  ++ map LAmendEnd (amending l)
+  ++ map LTaskDone (running l).
+
+Fixpoint first_some {A B} (f : A -> option B) (l : list A) : option B :=
+  match l with
+  | [] => None
+  | x :: r => match f x with Some y => Some y | None => first_some f r end
+  end.
+
+Fixpoint find_overrun_gen (hg jg : slot_test) (depth : nat) (l : loop) (k : nat) (acc : list lev) : option (list lev) :=
+  if overrun l then Some (rev acc) else
+  match depth with
+  | O => None
+  | S d => first_some (fun e => find_overrun_gen hg jg d (lstep_gen hg jg l e) (S k) (e :: acc)) (next_events l k)
+  end.
+
+(* iterative deepening: a shortest overrun of at most depth+tries-1 events for job limit n *)
+Fixpoint shortest_overrun_gen (hg jg : slot_test) (n : nat) (depth : nat) (tries : nat) : option (list lev) :=
+  match tries with
+  | O => None
+  | S t => match find_overrun_gen hg jg depth (loop_init n) 1 [] with
+           | Some w => Some w
+           | None => shortest_overrun_gen hg jg n (S depth) t
+           end
+  end.
+
+Definition shortest_overrun := shortest_overrun_gen hash_slot_free job_slot_free.
+
+(* the variant test that discounts the step tasks parked in amend() (seeded change r3) *)
+Definition lend_slot_free : slot_test := fun r w n => Z.ltb (r - w) n.
+
+(* correspondence with the real Builder: after every event the implementation performed, the
+   number of tracked tasks and of parked amend calls must agree *)
+Fixpoint loop_trace_ok (l : loop) (tr : list (lev * nat * nat)) : bool :=
+  match tr with
+  | [] => true
+  | (e, nr, na) :: r =>
+      let l' := lstep l e in
+      Nat.eqb (length (running l')) nr && Nat.eqb (length (amending l')) na && loop_trace_ok l' r
+  end.
+
+Fixpoint loop_trace_mismatch (l : loop) (tr : list (lev * nat * nat)) (n : nat) : option nat :=
+  match tr with
+  | [] => None
+  | (e, nr, na) :: r =>
+      let l' := lstep l e in
+      if Nat.eqb (length (running l')) nr && Nat.eqb (length (amending l')) na
+      then loop_trace_mismatch l' r (S n) else Some n
+  end.
 
 (* ------------------------------------------------------------------------------------------ *)
 (* Part B: tables                                                                              *)
